@@ -17,6 +17,18 @@ SEEDS = {
             'gapped mode; an already open file receives a call with >= 2 blocks and then another call'),
     'C01b': ('C01', ['C01', 'C08'], "reader drops the file whose last millisecond contains the query's first sample (>= became >)",
              'rate >= 1 kHz; a read that starts in the last millisecond of a file'),
+    'C01c': ('C01', ['C01', 'C07'], 'extension: source pointer of blocks 2..N in continuous block-by-block mode ignores the sub-channel stride', 'is_continuous, num_subchannels >= 2, rf_write_blocks with >= 2 blocks'),
+    'C02c': ('C02', ['C02', 'C10'], 'dataset / index / dataspace closes removed before H5Fclose at writer close: the rename precedes the real flush', 'process killed inside close() between the rename and the release of the handles'),
+    'C05c': ('C05', ['C05'], 'length check of the two index arrays removed in Python; the extension only rejects a shorter block array', 'len(block_sample_arr) > len(global_sample_arr)'),
+    'C06c': ('C06', ['C06', 'C11'], 'init_utc_timestamp computed as (start / n) * d (remainder term dropped)', 'denominator > 1 and a start index with (start % n) * d >= n'),
+    'C08c': ('C08', ['C08'], '_get_last_sample uses the first index row instead of the last', 'gapped channel whose last file has more than one index row'),
+    'C09c': ('C09', ['C09', 'C08'], '_read closes the cached file before trying to open the next one: after a failed open the cache names a closed file', 'long-lived reader, read probing a missing file after the cached one, then another read of the cached file'),
+    'C10c': ('C10', ['C10', 'C02'], 'digital_rf_close_hdf5_file: a failed rename removes the tmp file and returns 0', 'the rollover rename itself fails'),
+    'C12c': ('C12', ['C12'], "metadata reader orders a file's sample indices as strings", 'one file holding indices with different numbers of digits'),
+    'C14c': ('C14', ['C14'], 'subdirectory window slice uses forward fill only for metadata channels', 'RF channel, start time strictly inside a subdirectory span'),
+    'C16c': ('C16', ['C16'], '_modify_record stores the new record before the size expirer computes the size delta', 'size limit; a tracked file reported again with a different size'),
+    'C19c': ('C19', ['C19', 'C05'], 'rf_write counts len() of the caller array instead of the cast array', 'complex writer, 1 sub-channel, flat interleaved real input of 2N values'),
+    'C20c': ('C20', ['C20', 'C12'], 'metadata writer keeps the last file open and unflushed between write() calls', 'reader in another process than the writer'),
     'C02': ('C02', ['C02', 'C09'], 'existence check of the finished name skipped when the subdirectory was "just created" (in effect always)',
             'a second session writing into a period whose finalized file exists'),
     'C02b': ('C02', ['C02'], 'a failed exclusive create on an existing tmp name no longer marks the writer failed: close publishes the stale tmp file',
